@@ -40,6 +40,11 @@ def trial(patch, ids, tier="quick"):
     if p.returncode != 0:
         return {"error": "does not apply: " + p.stderr.strip()[:200]}
     res = {}
+    # a trial must not leave evidence written against a patched tree behind
+    saved = {}
+    for i in ids:
+        ev = os.path.join(VERIF, "evidence", f"{i}.json")
+        saved[ev] = open(ev, "rb").read() if os.path.exists(ev) else None
     try:
         for i in ids:
             r = sh(os.path.join(VERIF, "check"), i, tier, env=dict(os.environ, VERIF_SEED=os.environ.get("VERIF_SEED", "1")))
@@ -47,6 +52,12 @@ def trial(patch, ids, tier="quick"):
             res[i] = "INCONCLUSIVE" if r.returncode == 2 else n
     finally:
         restore()
+        for ev, data in saved.items():
+            if data is None:
+                if os.path.exists(ev):
+                    os.remove(ev)
+            else:
+                open(ev, "wb").write(data)
     return res
 
 
